@@ -5,25 +5,25 @@ Import ListNotations.
 Open Scope N_scope.
 
 (* the allocation counter only grows: addresses handed out by one call are never reused *)
-Theorem C04_alloc_mono : forall e M fuel, mono_v (eval_v e M fuel) /\ mono_a (eval_a e M fuel).
+Theorem C04_alloc_mono : forall e M F fuel cx, mono_v (eval_v e M F fuel cx) /\ mono_a (eval_a e M F fuel cx).
 Proof. exact alloc_mono. Qed.
 
 (* pointers are re-addressed from fresh temporaries, containers are re-made *)
-Theorem C04_pointer_fresh : forall e M f q src st v st',
-  eval_v e M (S f) (PRef false q) src st = Done (v, st') ->
-  exists a r, v = VPtr a r /\ eval_v e M f q src st = Done (r, a) /\ st' = a + 1.
+Theorem C04_pointer_fresh : forall e M F f cx q src st v st',
+  eval_v e M F (S f) cx (PRef false q) src st = Done (v, st') ->
+  exists a r, v = VPtr a r /\ eval_v e M F f cx q src st = Done (r, a) /\ st' = a + 1.
 Proof. exact eval_ref_nonnil. Qed.
-Theorem C04_slice_fresh : forall e M f el a i vs old st v st',
-  eval_a e M (S f) (AList false el a) (VSlice i vs) old st = Done (v, st') ->
+Theorem C04_slice_fresh : forall e M F f cx el a i vs old st v st',
+  eval_a e M F (S f) cx (AList false el a) (VSlice i vs) old st = Done (v, st') ->
   exists rs, v = VSlice st rs /\ length rs = length vs.
 Proof. exact eval_slice_nonnil. Qed.
-Theorem C04_map_fresh : forall e M f k v i kvs old st r st',
-  eval_a e M (S f) (AMap k v) (VMap i kvs) old st = Done (r, st') ->
+Theorem C04_map_fresh : forall e M F f cx k v i kvs old st r st',
+  eval_a e M F (S f) cx (AMap k v) (VMap i kvs) old st = Done (r, st') ->
   exists rs, r = VMap st rs /\ length rs = length kvs.
 Proof. exact eval_map_nonnil. Qed.
 
 (* the only plan that hands the source out unchanged is the SkipCopy plan (and the identity on basic values) *)
-Theorem C04_share_returns_source : forall e M f src st, eval_v e M (S f) PShare src st = Done (src, st).
+Theorem C04_share_returns_source : forall e M F f cx src st, eval_v e M F (S f) cx PShare src st = Done (src, st).
 Proof. exact eval_share. Qed.
 
 Print Assumptions C04_alloc_mono.
